@@ -126,6 +126,9 @@ func genDerive(r *KRng, client string) *WDerive {
 	if r.P(0.12) {
 		d.DupSuppressed = uint64(r.Pick(0x3129, 0x7f01, 0x2ab2))
 	}
+	if r.P(0.1) {
+		d.GreaseExact = true
+	}
 	if r.P(0.4) {
 		d.Shuffle = 1 + r.N(2)
 	}
